@@ -6,7 +6,7 @@ THEOREMS = ["C07_conversion_passes_through", "C07_other_sections_exact", "C07_pa
             "C07_every_generated_service_passes_through", "C07_killmode_kept", "C07_syslog_identifier_kept", "C07_remain_after_exit_kept",
             "C07_container_oneshot_kept", "C07_oneshot_type_kept", "C07_kube_oneshot_kept", "C07_kube_workdir_kept", "C07_build_workdir_kept",
             "C07_tables", "C07_example",
-            "C07_add_keeps_order", "C07_set_keeps_others", "C07_set_replaces_last", "C07_pinned_refuted"]
+            "C07_add_keeps_order", "C07_set_keeps_others", "C07_set_replaces_last", "C07_pinned_refuted", "C07_every_generated_service_passes_through_with_dropins"]
 
 # keys the generator itself writes: user values must still appear contiguously, in order; the generator's come before (Unit After/Wants defaults) or after
 GEN_UNIT_POST = {"Requires", "After", "BindsTo", "Before", "Wants", "RequiresMountsFor", "SourcePath"}
